@@ -17,6 +17,9 @@ RULE = ("trace level: every restore/empty/rm run of the scenarios must issue exa
 ASSUMPTIONS = ["each syscall-level mutation is atomic with respect to a kill"]
 
 
+RULE += ' Since round 8: restores with --overwrite onto existing files/directories/links (no new payload without info), and the interpreter giving up (RecursionError/MemoryError) at one system call or at every unlink/rmdir.'
+
+
 def gen(rng, n):
     scns, metas = [], []
     for i in range(n):
@@ -52,6 +55,12 @@ def gen(rng, n):
         if cmd == 'restore':
             step['argv'] = ['/']
             step['stdin'] = rng.choice(['0\n', '0-%d\n' % (k - 1), '%d\n' % (k - 1)])
+            if rng.random() < 0.35:
+                # --overwrite onto something that is already there (a file, a directory, a link)
+                step['argv'].append('--overwrite')
+                for e in ents:
+                    if rng.random() < 0.7 and not any(n[1] == e['full'] for n in nodes):
+                        nodes.append(rng.choice([['f', e['full'], 'already here'], ['d', e['full'] + '/sub', 0o755], ['l', e['full'], '/canary/file']]))
         elif cmd == 'empty':
             if rng.random() < 0.5:
                 step['argv'] = ['365']
@@ -81,6 +90,10 @@ def judge_crash(run, scn, meta, before, k, nmut, crashed, final_ref, section):
         for name, e in ea.items():
             if e['payload'] is not None and eb.get(name, {}).get('info') is not None and e['info'] is None:
                 run.fail('oracle', 'a killed %s left a payload without its .trashinfo' % meta['cmd'],
+                         dict(case, trash_dir=td, name=esc(name)), key='stranded-payload', section=section)
+                return
+            if e['payload'] is not None and e['info'] is None and name not in eb:
+                run.fail('oracle', 'a killed %s left a NEW payload under files/ that has no .trashinfo' % meta['cmd'],
                          dict(case, trash_dir=td, name=esc(name)), key='stranded-payload', section=section)
                 return
     # (2) restore: each entry complete in the trash or complete at the destination
@@ -131,6 +144,11 @@ def sweep(run, scn, meta, section='crash', max_points=None):
         ks = sorted(run.rng.sample(ks, max_points))
     scns = []
     plans = [(k, {'crash': k}) for k in ks] + [(k, {'interrupt': k}) for k in ks]   # SIGKILL-like and SIGINT-like
+    # ... and the interpreter giving up at that point (RecursionError of the recursive rmtree on a very deep tree, MemoryError): an
+    # Exception that is no OSError ends the command there just as well
+    plans += [(k, {'raise_at': [k, run.rng.choice(['RecursionError', 'MemoryError'])]}) for k in ks]
+    if any(m in ('unlink', 'rmdir') for m in o.get('muts', [])):
+        plans.append((0, {'raise_kinds': [['unlink', 'rmdir'], 'RecursionError']}))      # ... at every attempt to remove a directory's contents
     ks = [k for k, _ in plans]
     for k, plan in plans:
         s = copy.deepcopy(scn)
